@@ -493,6 +493,8 @@ def check_defaults(ctx, c):
     same(canon.system(want), canon.system(got), "omitting %s" % which, "defaults")
 
 
+RULE = RULE + " " + ("Since seeded round 5 constructed trajectories may carry a system of their own that differs from their script's (state and one flag edited), as after a coarse-grained run.")
+
 FACETS = [
     Facet("parts", check_parts, strategy=strat_parts, examples=(900, 20000), shards=(8, 16)),
     Facet("script", check_script, strategy=strat_script, examples=(500, 12000), shards=(8, 16)),
